@@ -751,7 +751,6 @@ type bodies struct {
 func (s *stepper) call(st replay.Step) (replay.Obs, error) {
 	rng := s.rng
 	g := newGate()
-	s.g = g
 	mr, rt, v0 := replay.Int(st.Args, "mr"), replay.Int(st.Args, "rt"), replay.Str(st.Args, "v0")
 
 	// the payload every 200 answer is built from: one compressible data batch
@@ -837,6 +836,7 @@ func (s *stepper) call(st replay.Step) (replay.Obs, error) {
 	}
 	ptr, pmd := vgirpc.MakeExternalLocationBatch(schema, h0.url)
 	s.hold(ptr)
+	s.g = g // from here on a call is in flight and End must see it through
 	go func() {
 		var ev event
 		ev.kind = "return"
